@@ -434,7 +434,8 @@ class ProgGen:
             return getattr(self, "s_" + r.choice(choices))(depth)
         choices = ["assign_new"] * 3 + ["reassign"] * 3 + ["aug"] * 3 + ["write_expr"] * 2 + ["observe"] * 2
         if depth < 3:
-            choices += ["if"] * 3 + ["for"] * 2 + ["while"] * 2
+            choices += ["if"] * 3 + ["for"] * 2 + ["while"] * 2 + ["if_define"] * 2
+        choices += ["tuple_new"]
         if len(self.visible()) >= 2:
             choices += ["swap"]
         if self.use_lists:
@@ -562,19 +563,93 @@ class ProgGen:
         else:
             self.emit(f"{name}.{op}()")
 
+    def pass_block(self):
+        self.ind += 1
+        self.emit(self.r.choice(["pass", "pass", "print(\"host only\")"]))
+        self.ind -= 1
+        self.feat("empty-arm")
+
     def s_if(self, depth):
         self.feat("if")
         self.emit(f"if {self.e_bool(1)}:")
-        self.block(depth)
+        if self.chance(0.1):
+            self.pass_block()
+        else:
+            self.block(depth)
         for _ in range(self.r.choice([0, 0, 1, 2])):
             self.feat("elif")
             self.emit(f"elif {self.e_bool(1)}:")
-            self.block(depth)
+            if self.chance(0.25):
+                self.pass_block()
+            else:
+                self.block(depth)
         if self.chance(0.5):
             self.feat("else")
             self.emit("else:")
             self.block(depth)
         self.observe()
+
+    def s_if_define(self, depth):
+        """A name first assigned inside a conditional / loop and read after it (exercises declaration hoisting).
+        Python stays well-defined: the name is assigned on every path that can execute."""
+        if self.pure or (self.in_main_loop and not self.h("first-assign-in-loop-branch")):
+            return self.s_reassign(depth)
+        r = self.r
+        t = self.pick_type()
+        name = self.fresh({"int": "i", "float": "f", "str": "s", "bool": "b"}[t])
+        ints = self.visible("int")
+        probe = r.choice(ints).name if ints else "0"
+        form = r.choice(["if-else", "if-elif-else", "else-only", "if-only", "for-body", "while-body"])
+        self.feat("define-in-" + form)
+        if form == "if-else":
+            self.emit(f"if {self.e_bool(1)}:")
+            self.ind += 1; self.emit(f"{name} = {self.new_value(t)}"); self.ind -= 1
+            self.emit("else:")
+            self.ind += 1; self.emit(f"{name} = {self.new_value(t)}"); self.ind -= 1
+        elif form == "if-elif-else":
+            self.emit(f"if {self.e_bool(1)}:")
+            self.ind += 1; self.emit(f"{name} = {self.new_value(t)}"); self.ind -= 1
+            self.emit(f"elif {self.e_bool(1)}:")
+            self.ind += 1; self.emit(f"{name} = {self.new_value(t)}"); self.ind -= 1
+            self.emit("else:")
+            self.ind += 1; self.emit(f"{name} = {self.new_value(t)}"); self.ind -= 1
+        elif form == "else-only":
+            # the condition is false at run time but not decidable by the transpiler
+            self.emit(f"if (abs({probe}) < 0):")
+            self.ind += 1; self.emit("sleep(1)"); self.ind -= 1
+            self.emit("else:")
+            self.ind += 1; self.emit(f"{name} = {self.new_value(t)}"); self.ind -= 1
+        elif form == "if-only":
+            self.emit(f"if (abs({probe}) >= 0):")
+            self.ind += 1; self.emit(f"{name} = {self.new_value(t)}"); self.ind -= 1
+        elif form == "for-body":
+            iv = self.fresh("k")
+            self.emit(f"for {iv} in range({r.randint(1, 3)}):")
+            self.ind += 1; self.emit(f"{name} = {self.new_value(t)}"); self.ind -= 1
+        else:
+            w = self.fresh("w")
+            self.emit(f"{w} = {r.randint(1, 3)}")
+            self.declare(w, "int", ro=True)
+            self.emit(f"while {w} > 0:")
+            self.ind += 1; self.emit(f"{w} -= 1"); self.emit(f"{name} = {self.new_value(t)}"); self.ind -= 1
+        v = self.declare(name, t)
+        self.observe(v)
+        if self.chance(0.5):
+            # use it in a later declaration too (the hoisted name's type feeds later inference)
+            n2 = self.fresh({"int": "i", "float": "f", "str": "s", "bool": "b"}[t])
+            self.emit(f"{n2} = {name}")
+            self.observe(self.declare(n2, t))
+
+    def s_tuple_new(self, depth):
+        """Tuple assignment introducing new names, right-hand sides may use earlier names."""
+        if self.pure or (self.in_main_loop and depth > 1 and not self.h("first-assign-in-loop-branch")):
+            return self.s_reassign(depth)
+        ts = [self.r.choice(["int", "int", "float", "str"]) for _ in range(self.r.choice([2, 2, 3]))]
+        names = [self.fresh({"int": "i", "float": "f", "str": "s"}[t]) for t in ts]
+        self.emit(f"{', '.join(names)} = {', '.join(self.new_value(t) for t in ts)}")
+        self.feat("tuple-new")
+        for n, t in zip(names, ts):
+            self.observe(self.declare(n, t))
 
     def s_for(self, depth):
         self.feat("for-range")
@@ -682,16 +757,30 @@ class ProgGen:
         r = self.r
         et = r.choice(["int", "int", "float", "str"])
         name = self.fresh("L")
-        if r.random() < 0.3 and et == "int":
-            n = r.randint(0, 4)
+        if r.random() < 0.35 and et == "int":
             self.feat("listcomp")
             body = r.choice(["{k} * 2", "{k} + 1", "{k}", "{k} * {k}"]).format(k="q")
-            self.emit(f"{name} = [{body} for q in range({n})]")
-            length = n
+            form = r.choice([1, 1, 2, 3, 3])
+            if form == 1:
+                rng = (r.randint(0, 4),)
+            elif form == 2:
+                lo = r.randint(-2, 3)
+                rng = (lo, lo + r.randint(0, 4))
+            else:
+                lo = r.randint(-3, 10)
+                step = r.choice([1, 2, 3, -1, -2, -3])
+                hi = lo + step * r.randint(0, 4) + r.choice([0, 0, 1, -1, 2, -2])
+                rng = (lo, hi, step)
+                self.feat("listcomp-range3")
+            self.emit(f"{name} = [{body} for q in range({', '.join(map(str, rng))})]")
+            length = len(range(*rng))
         else:
             n = r.randint(1, 4)
             items = [self.int_lit() if et == "int" else self.float_lit() if et == "float" else self.str_lit()
                      for _ in range(n)]
+            if n >= 2 and self.chance(0.4):
+                items[r.randrange(1, n)] = items[0]  # duplicates: remove() must drop the first occurrence only
+                self.feat("list-duplicates")
             self.emit(f"{name} = [{', '.join(items)}]")
             length = n
             self.feat("list-literal-" + et)
@@ -744,10 +833,22 @@ class ProgGen:
                 self.feat("hz:list-mutate-nested")
                 v.length = None
         elif op == "remove" and et == "int" and straight and v.length:
-            # remove an element that is certainly present: the one at index 0
+            # remove an element that is certainly present (through an element read or a run-time variable)
             self.feat("list-remove")
-            self.emit(f"{v.name}.remove({v.name}[0])")
+            idx = self.r.randint(0, v.length - 1)
+            if self.chance(0.5):
+                self.emit(f"{v.name}.remove({v.name}[{idx}])")
+            else:
+                tmp = self.fresh("rm")
+                self.emit(f"{tmp} = {v.name}[{idx}]")
+                self.declare(tmp, "int", ro=True)
+                self.emit(f"{v.name}.remove({tmp})")
             v.length -= 1
+            # observe every remaining element and the length
+            for j in range(v.length):
+                self.emit(f"mon.write({v.name}[{j}])")
+            self.emit(f"mon.write(len({v.name}))")
+            self.obs += v.length + 1
         else:
             if v.length:
                 self.observe(v)
